@@ -51,6 +51,9 @@ def main():
             "checks_run_quick": {c: {"exit": r["rc"], "violations": r["violations"], "first": r.get("first", "")} for c, r in e.get("checks", {}).items()},
             "caught_by": e.get("caught_by", []),
         }
+        if e.get("before_strengthening"):
+            # quick checks run against the change BEFORE the checks were extended in response to it
+            meta["checks_run_quick_before_strengthening"] = e["before_strengthening"]
         json.dump(meta, open(os.path.join(dst, "meta.json"), "w"), indent=1)
         out.append((n, meta["caught_by"]))
     for n, c in out:
